@@ -172,9 +172,14 @@ def decode(code):
     def dec_edit(e):
         kind, which, dpool, dfree = e
         if kind <= 1 and timed:
-            return ["dur", timed[which % len(timed)], DUR_POOL[dpool]]
+            tn = timed[which % len(timed)]
+            if dfree % 3 == 0:
+                return ["dur", tn, next(sd["dur"] for sd in states if sd["n"] == tn)]  # back to the declared value
+            return ["dur", tn, DUR_POOL[dpool]]
         if case["vars"]:
             v = case["vars"][which % len(case["vars"])]
+            if dfree % 3 == 0:
+                return ["var", v["n"], v["default"]]
             return ["var", v["n"], VAR_EDITS[type(v["default"])][dpool % 3]]
         return None
 
